@@ -26,12 +26,16 @@ def main():
     shutil.copytree("/repo/pypose", os.path.join(d, "pypose"), ignore=shutil.ignore_patterns("__pycache__"))
     try:
         for sub in a.sub:
-            rel, old, new = sub.split("::")
-            old, new = old.encode().decode("unicode_escape"), new.encode().decode("unicode_escape")
+            rel, rest = sub.split("::", 1)
+            rest = rest.encode().decode("unicode_escape")
             p = os.path.join(d, rel)
             s = open(p).read()
-            if s.count(old) != 1:
-                print("MUTATE-ERROR: %r occurs %d times in %s" % (old, s.count(old), rel)); return 3
+            # OLD::NEW - OLD may itself end with ':' (e.g. "while x:::while y:"): take the split where OLD occurs exactly once
+            cands = [(rest[:i], rest[i + 2:]) for i in range(len(rest)) if rest.startswith("::", i)]
+            good = [(o, n) for o, n in cands if o and s.count(o) == 1]
+            if len(good) < 1:
+                print("MUTATE-ERROR: no split of %r has an OLD text occurring exactly once in %s" % (rest, rel)); return 3
+            old, new = good[0]
             open(p, "w").write(s.replace(old, new))
         if a.patch:
             rc = subprocess.call(["patch", "-p1", "-s", "-d", d, "-i", os.path.abspath(a.patch)])
